@@ -552,7 +552,7 @@ func ruleC03(prog *Program, rep *Report) {
 	ruleSENFollow(prog, rep)
 	ruleMemberStore(prog, rep)
 	ruleReaderLoops(prog, rep)
-	ruleBufAlias(prog, rep, append(append([]feSpec{}, jsonFrontEnds...), senFrontEnds...)...) // with a view of the read buffer the result depends on the chunking
+	ruleBufAlias(prog, rep, append(append([]feSpec{}, jsonFrontEnds...), senFrontEnds...)...)                            // with a view of the read buffer the result depends on the chunking
 	ruleEntryParity(prog, rep, "oj.Parser", "oj.Validator", "oj.Tokenizer", "gen.Parser", "sen.Parser", "sen.Tokenizer") // the []byte and the reader entry must start from the same state
 	ruleArgParity(prog, rep, "oj.Parser", "oj.Validator", "oj.Tokenizer", "gen.Parser", "sen.Parser", "sen.Tokenizer")
 	if rep.Tier == "thorough" {
